@@ -29,6 +29,7 @@ type lifeAct struct {
 type lifeConn struct {
 	IP       string    `json:"ip"`
 	StartMs  int       `json:"start_ms"`
+	CloseErr bool      `json:"server_close_reports_error"`
 	Acts     []lifeAct `json:"acts"`
 	EndClose bool      `json:"client_closes"`
 }
@@ -124,6 +125,7 @@ func genLifePlan(e *Env) *lifePlan {
 	ips := []string{"10.1.0.1", "10.1.0.2", "10.1.0.3"}
 	for i := 0; i < n; i++ {
 		c := lifeConn{IP: ips[e.Int(Pick(e, 1, 2, 3))], StartMs: Pick(e, 0, 0, 1, 50, 300, 1200), EndClose: e.Chance(60)}
+		c.CloseErr = e.Chance(15)
 		na := e.Range(1, 4)
 		for j := 0; j < na; j++ {
 			a := lifeAct{Kind: Pick(e, "req", "req", "req", "pipelined", "partial", "bad", "hijack", "wait", "silent")}
@@ -282,6 +284,10 @@ func (r *lifeRun) client(i int) {
 		return
 	}
 	rec.client = conn
+	if c.CloseErr {
+		conn.Peer().F.CloseErr = true
+		r.e.Fault("close_error")
+	}
 	sc := &SeqClient{C: conn, br: bufio.NewReaderSize(conn, 1<<16)}
 	if r.p.Mode == "serveconn" {
 		srv := conn.Peer()
